@@ -1,7 +1,8 @@
 (* C05 — criteria mean their implication closure, nothing more, however written. *)
 Require Import Base Extracted Criteria Search AuditGraph.
 Require Import DepGraph Resolve.
-Require Import CriteriaProofs AuditGraphProofs RewriteProofs RewritePolicy.
+Require Import CriteriaProofs AuditGraphProofs ResolveProofs SuggestProofs RewriteProofs RewritePolicy.
+Require Import CertifyCollapse CollapseProofs.
 Local Open Scope N_scope.
 
 (* X counts for X and everything X transitively implies, and for nothing else:
@@ -122,6 +123,33 @@ Example C05_nonvacuous :
   ct_acyclic [[1]] = true.
 Proof. vm_compute. auto. Qed.
 
+(* "every criteria list cargo-vet writes denotes the set it computed", for the one command that WRITES an audit on the
+   user's behalf: whatever `certify` records for a delta — the delta as asked for, or (git-revision start, collapsing not
+   switched off) its fold with the first adjacent non-importable audit that is rooted and carries the same criteria list —
+   certifies exactly what the delta the user asked for certifies, for every criterion and version, and the list written
+   is the list asked for.  (Model: CertifyCollapse.v, compared with the audit the real command wrote in every certify
+   step of the histories.) *)
+Theorem C05_certify_records_what_was_asked : forall imp_of t ps from_is_git no_collapse new c v,
+  ct_acyclic t = true -> (forall x, In x (au_crit new) -> x < N.of_nat (ct_len t)) ->
+  (certified t (add_local_audit ps (certified_entry imp_of t ps from_is_git no_collapse new)) c v
+   <-> certified t (add_local_audit ps new) c v).
+Proof. exact certify_records_what_was_asked. Qed.
+Theorem C05_certify_writes_the_requested_criteria : forall imp_of t ps from_is_git no_collapse new,
+  au_crit (certified_entry imp_of t ps from_is_git no_collapse new) = au_crit new.
+Proof. exact certify_writes_the_requested_criteria. Qed.
+(* why the two lists must be EQUAL: were the prior audit only required to be recorded for a SUBSET of the certified
+   criteria, a delta recorded for safe-to-run would come to count for safe-to-deploy *)
+Theorem C05_folding_with_a_weaker_record_refuted :
+  exists m, try_collapse_superset cw_table (fun _ => false) cw_new cw_prior = Some m /\
+            certified cw_table (add_local_audit cw_ps m) 1 2 /\ ~ certified cw_table (add_local_audit cw_ps cw_new) 1 2.
+Proof. exact superset_fold_certifies_something_new. Qed.
+(* non-vacuity: the code's own test folds two deltas carrying the same list, and refuses the witness above *)
+Example C05_fold_nonvacuous :
+  try_collapse (fun _ => false) cw_new {| au_kind := KDelta 0 1; au_crit := [1]; au_importable := false; au_fresh := false |} =
+    Some {| au_kind := KDelta 0 2; au_crit := [1]; au_importable := false; au_fresh := false |} /\
+  try_collapse (fun _ => false) cw_new cw_prior = None.
+Proof. vm_compute. auto. Qed.
+
 Print Assumptions C05_verdict_invariant_under_policy_rewriting.
 Print Assumptions C05_verdict_invariant_store_and_policy.
 Print Assumptions C05_closure_is_least.
@@ -135,3 +163,6 @@ Print Assumptions C05_verdict_invariant_under_rewriting.
 Print Assumptions C05_verdict_invariant_reorder_duplicate.
 Print Assumptions C05_verdict_invariant_closure.
 Print Assumptions C05_verdict_invariant_minimal.
+Print Assumptions C05_certify_records_what_was_asked.
+Print Assumptions C05_certify_writes_the_requested_criteria.
+Print Assumptions C05_folding_with_a_weaker_record_refuted.
